@@ -490,17 +490,19 @@ func main() {
 	c.Set("shards", len(shards))
 	c.Assume("observation is json_encode (bin2hex for string results) of the result and of the receiver after the call, as the property prescribes; json_encode itself is C14's subject")
 	c.Assume("where docs/strings.md is silent (byte vs character positions, negative substring positions, start > end, empty search/separator, default split on repeated spaces, non-ASCII case mapping) each defensible answer is accepted; where a required argument is omitted only 'no Go panic' is demanded")
-	c.Assume("array elements are ints, one-letter strings and nested arrays; floats, null, bool and objects as elements, receivers longer than the tier bound and associative arrays are outside the bound")
+	c.Assume("array elements are ints, one-letter strings and nested arrays; floats, numeric strings, null and bool as elements / needles / items only in the mixed-kinds family (lists of length <= 2, thorough 3); objects as elements, receivers longer than the tier bound and associative arrays are outside the bound")
+	c.Assume("indexOf / includes: a call conforms when it agrees with JavaScript === (one number type: 2.0 equals 2), PHP == or equality of the string forms (docs note 5); join / sort accept every string form of null, bool and nested arrays; PHP's === (2.0 not identical to 2) is not a reading the docs offer")
+	c.Assume("nested family: every case carries its own history call; a defect that shows only in a process that has never run the method before is outside the bound")
 	if len(outcomes) < 40 {
 		c.HarnessError("vacuous: only %d distinct (method, result type) outcomes", len(outcomes))
 	}
 	if mutated == 0 {
 		c.HarnessError("vacuous: no case changed its receiver")
 	}
-	two := "; afterwards family: reduced receivers x array-returning / array-storing methods x every later write to result, receiver or array argument (own slot, push, through a nested element), all values required independent; two-step family: every list of length <= %d over 2 values (+3 nested receivers) x one first call of {push(1), push(2), pop, shift, unshift(1), splice(0,1), $r=$r->slice(0), reverse, sort} x every method x argument tuple with item pools of 2 (concat 3) values, model applies both steps"
-	bound := "array receivers: all lists of length <= 3 over 4 values (+ sort / flat pools); string receivers: all strings of length <= 3 over 4 characters" + fmt.Sprintf(two, 3)
+	two := "; mixed-kinds family: every method x every list of length <= %d over {int, integral float, fractional float, numeric string, string, null, true, false, nested array} x needles of every kind / items and initial values of the new kinds; nested family: 9 callback-taking outer methods x 51 inner calls (every method, on the callback's element or on its array argument) x every history call of the same inner method x every outer receiver of length <= %d over 3 (thorough: element route 4) values, trace of (element, index, inner result), outer result, receiver and the kept earlier result compared; afterwards family: reduced receivers x array-returning / array-storing methods x every later write to result, receiver or array argument (own slot, push, through a nested element), all values required independent; two-step family: every list of length <= %d over 2 values (+3 nested receivers) x one first call of {push(1), push(2), pop, shift, unshift(1), splice(0,1), $r=$r->slice(0), reverse, sort} x every method x argument tuple with item pools of 2 (concat 3) values, model applies both steps"
+	bound := "array receivers: all lists of length <= 3 over 4 values (+ sort / flat pools); string receivers: all strings of length <= 3 over 4 characters" + fmt.Sprintf(two, 2, 3, 3)
 	if !quick {
-		bound = "array receivers: all lists of length <= 4 over 4 values and length 5 over 3 values (+ sort / flat pools); string receivers: all strings of length <= 5 over 4 characters" + fmt.Sprintf(two, 4)
+		bound = "array receivers: all lists of length <= 4 over 4 values and length 5 over 3 values (+ sort / flat pools); string receivers: all strings of length <= 5 over 4 characters" + fmt.Sprintf(two, 3, 4, 4)
 	}
 	c.Finish(total, total, total-open, "every documented method x every receiver in the bound x every argument tuple (omitted optionals, index classes below..beyond, 0-3 variadic items, callback arities); "+bound+"; result, receiver-after and callback trace compared with an independent Go model")
 }
